@@ -143,7 +143,9 @@ fn shaped(rng: &mut Rng) -> String {
     let l = lit(rng);
     let l2 = lit(rng);
     let e: String = (0..rng.range(0, 2)).map(|_| *rng.pick(b"abA-") as char).collect();
-    match rng.below(16) {
+    // a piece that makes a recogniser *reject* when it shows up inside the would-be literal
+    let spoil = ["/", ".", "?", "*", "[ab]", "{a,b}", "/b", ".b", "a/", "\\*"][rng.below(10)];
+    match rng.below(28) {
         0 => l,
         1 => format!("{}/{}", l, l2),
         2 => format!("**/{}", l),
@@ -159,7 +161,21 @@ fn shaped(rng: &mut Rng) -> String {
         12 => format!("**/{}", ["..", ".", "a.", ".a", "a..", "-"][rng.below(6)]),
         13 => format!("*{}", [".", "..", "/.", "/..", "a."][rng.below(5)]),
         14 => "/**".into(),
-        _ => format!("{}/**/{}", l, l2),
+        15 => format!("{}/**/{}", l, l2),
+        // rejection conditions of the six recognisers: separator / dot / wildcard / class / alternates
+        // inside the would-be extension, basename, literal, prefix or suffix
+        16 => format!("*.{}{}{}", e, spoil, e),                // ext: `*.a/b`, `*.a.b`, `*.a?`
+        17 => format!("**/*.{}{}{}", e, spoil, l),             // ext behind `**/`
+        18 => format!("**/{}{}{}", l, spoil, l2),              // basename literal
+        19 => format!("{}{}{}", l, spoil, l2),                 // literal
+        20 => format!("{}{}*", l, spoil),                      // prefix
+        21 => format!("{}{}/**", l, spoil),                    // prefix with `/**`
+        22 => format!("*{}{}{}", l, spoil, l2),                // suffix
+        23 => format!("**/*{}{}{}", l, spoil, l2),             // suffix behind `**/`
+        24 => format!("{}*.{}{}{}", l, e, spoil, e),           // required extension
+        25 => format!("{}{}.{}", l, spoil, e),                 // required extension, odd front
+        26 => format!("**/{}{}", spoil, l),                    // `**/` followed by a non-literal
+        _ => format!("{}.{}/{}", l, e, l2),                    // dot in a non-final component
     }
 }
 
@@ -329,7 +345,7 @@ fn gen_paths(rng: &mut Rng, globs: &[G], n: usize) -> Vec<Vec<u8>> {
                 p.insert(i, *rng.pick(&[0xffu8, 0x80, 0xc3, b'\n', 0, b'*', b'[', b'\\']));
                 ps.push(p);
             }
-            8 => ps.push([&b"."[..], b"..", b"a/.", b"a/..", b"a.", b".a", b"a/", b"/", b"", b"/a", b"a//b", b"a./", b"..a", b"a.."][rng.below(14)].to_vec()),
+            8 => ps.push([&b"."[..], b"..", b"a/.", b"a/..", b"a.", b".a", b"a/", b"/", b"", b"/a", b"a//b", b"a./", b"..a", b"a..", b"x.a/b", b"a.b/a.b", b".a/a", b"b/x.a/a"][rng.below(18)].to_vec()),
             _ => {
                 let g = rng.pick(globs);
                 let p = instantiate(rng, &g.text);
@@ -428,7 +444,7 @@ fn run_case(globs_in: &[G], paths: &[Vec<u8>], drv: &mut Driver, rep: &mut Repor
             }
             Ok(b) => {
                 let f: Vec<&str> = m.split(' ').collect();
-                if f.len() != 5 || f[0] != "ok" {
+                if f.len() != 6 || f[0] != "ok" {
                     out.violations.push(mk("impl_vs_model", "", TIE_M, &[g.clone()], &[], format!("glob {:?} opts {}: impl builds, model says {}", g.text, g.bits(), m)));
                     continue;
                 }
@@ -447,6 +463,9 @@ fn run_case(globs_in: &[G], paths: &[Vec<u8>], drv: &mut Driver, rep: &mut Repor
                     let strat = f[1].split(':').next().unwrap_or("");
                     rep.branch(&format!("strategy:{}", strat));
                     rep.branch(if f[3] == "1" { "glob:documented-grammar" } else { "glob:outside-documented-grammar" });
+                    if f[5] == "1" {
+                        rep.branch("glob:simpleGlob(C12_doc_partial proved)");
+                    }
                     if g.text.contains('{') {
                         rep.branch("glob:alternates");
                     }
@@ -648,11 +667,11 @@ fn main() {
         // exhaustive small scope: every glob of ≤ 3 pieces from a fixed piece alphabet, under the four
         // (literal_separator, case_insensitive) settings, against every path over {a,b,.,/,-,A} up to the bound
         let pieces: &[&str] = if args.thorough {
-            &["a", ".", "/", "?", "*", "**/", "/**", "[a]", "[!a]", "{a,b}", "A", "\\*"]
+            &["a", ".", "/", "?", "*", "*.a", "**/", "/**", "[a]", "[!a]", "{a,b}", "A", "\\*"]
         } else {
-            &["a", ".", "/", "*", "**/", "/**", "[!a]", "{a,.}"]
+            &["a", ".", "/", "*", "*.a", "**/", "/**", "[!a]", "{a,.}"]
         };
-        let maxlen = if args.thorough { 5 } else { 4 };
+        let maxlen = 4;
         let paths = all_paths(maxlen);
         let mut texts: Vec<String> = vec![String::new()];
         let mut layer: Vec<String> = vec![String::new()];
